@@ -66,6 +66,11 @@ package upstream
 //@   loop 1: invariant [outer-own] forall i int :: 0 <= i && i <= $idx0 ==> fresh(opts[i].Servers) && sbaseOf(opts[i].Servers) != sbaseOf(opts) && sbaseOf(opts[i].Servers) != sbaseOf(servers)
 //@   loop 1: invariant [copied] forall j int :: 0 <= j && j <= $idx ==> servers[j].Addr == item.Servers[j].Addr && servers[j].Backup == item.Servers[j].Backup
 
+// applying the upstream section of a configuration: exactly the configured upstream names are registered afterwards
+//@ func ResetWithOnStats(configs []config.UpstreamConfig, fn OnStatus)
+//@   modifies defaultUpstreamServers.m.dom, defaultUpstreamServers.m.vals
+//@   ensures [exact] forall k any :: typeis(k, "string") ==> (defaultUpstreamServers.m.dom[k] <==> (exists i int :: 0 <= i && i < len(configs) && configs[i].Name == unbox(k, "string")))
+
 // the target handed to the proxy is exactly the server the pool picked; no server means an error at once
 //@ func newTargetPicker$1(c *elton.Context) (target *url.URL, pdone middleware.ProxyDone, err error)
 //@   requires [captured-pool] uh != nil
